@@ -78,6 +78,9 @@ func runC15(c *CaseCtx) {
 		run.CheckStruct("after-merge")
 		return !c.Violated()
 	}
+	// one history in three injects no I/O fault at all (fn errors and oversized entries only): those are the cases in
+	// which the resource monitor applies (no descriptor or mapping of a database file may be left at the end)
+	noIOFaults := c.Case%3 == 2
 	phase := func(ntx int, failed bool) bool {
 		for i := 0; i < ntx && !run.Dead && !c.Violated(); i++ {
 			g.M = run.M
@@ -90,7 +93,7 @@ func runC15(c *CaseCtx) {
 			case failed && x < 14:
 				t.Ops = append(t.Ops, Op{K: "Put", B: g.bucket(), Key: g.pick(u.KVKeys), Val: make([]byte, int(cfg.Seg))})
 				run.Tx(t, true)
-			case failed && x < 26:
+			case failed && x < 26 && !noIOFaults:
 				// the commit is stopped by an injected write error: its first records stay in the log, uncommitted
 				g.MaxOps = 6
 				t = g.WriteTx(true)
